@@ -262,6 +262,15 @@ EmbedLaw ==
          ELSE IF D.ih # B.ih THEN "inline_html"
          ELSE "ok"
 
+(* C16 - a reference link / image is exactly the inline form with the same text, destination, title.
+   base = parse of the inline form, der = parse of the reference form (first paragraph compared). *)
+RefFormLaw ==
+    LET bi == InlineOf(Tr.base.toks) di == InlineOf(Tr.der.toks) IN
+    IF bi = <<>> \/ di = <<>> THEN "skip:no_inline_token"
+    ELSE IF Tr.a.blinks = 0 /\ Tr.a.dlinks = 0 THEN "skip:neither_form_is_a_link"
+    ELSE IF bi[1].kids # di[1].kids THEN "children"
+    ELSE "ok"
+
 -----------------------------------------------------------------------------
 Verdict == CASE Tr.op = "quote" -> QuoteLaw
              [] Tr.op = "list" -> ListLaw
@@ -269,6 +278,7 @@ Verdict == CASE Tr.op = "quote" -> QuoteLaw
              [] Tr.op \in {"eol", "nul", "tabs_lead", "tabs_all"} -> EncodingLaw
              [] Tr.op = "inline_mode" -> InlineModeLaw
              [] Tr.op = "embed" -> EmbedLaw
+             [] Tr.op = "refform" -> RefFormLaw
              [] OTHER -> "harness:unknown_law"
 
 Consume == /\ l' = l + 1 /\ verdict' = Verdict /\ UNCHANGED <<tid, done>>
